@@ -1,0 +1,78 @@
+//go:build verif
+
+/*
+SPDX-License-Identifier: Apache-2.0
+*/
+
+package legacyconnection
+
+// VerifTarget is one row of the message type -> state map (stateFromMsgType); Namespace is findNamespace's answer.
+type VerifTarget struct {
+	Msg       string
+	State     string
+	Namespace string
+	Err       bool
+}
+
+// VerifAction says in which (state, namespace) an action event is raised.
+type VerifAction struct {
+	State     string
+	Namespace string
+}
+
+// VerifTables is the protocol's state machine as the code defines it, obtained by executing it.
+type VerifTables struct {
+	States  []string
+	Can     [][2]string
+	Targets []VerifTarget
+	Actions []VerifAction
+}
+
+// VerifMsgTypes maps a short message name to the message type.
+func VerifMsgTypes() map[string]string {
+	return map[string]string{
+		"invitation": InvitationMsgType, "request": RequestMsgType, "response": ResponseMsgType, "ack": AckMsgType,
+	}
+}
+
+// VerifGraph enumerates the state machine by calling the package's own functions.
+func VerifGraph() *VerifTables {
+	names := []string{stateNameNull, StateIDInvited, StateIDRequested, StateIDResponded, StateIDCompleted}
+	t := &VerifTables{States: names}
+	all := append([]string{}, names...)
+	all = append(all, stateNameNoop)
+
+	for _, a := range all {
+		for _, b := range all {
+			sa, errA := stateFromName(a)
+			sb, errB := stateFromName(b)
+
+			if errA == nil && errB == nil && sa.CanTransitionTo(sb) {
+				t.Can = append(t.Can, [2]string{a, b})
+			}
+		}
+	}
+
+	types := VerifMsgTypes()
+
+	for _, m := range []string{"invitation", "request", "response", "ack"} {
+		st, err := stateFromMsgType(types[m])
+		row := VerifTarget{Msg: m, Namespace: findNamespace(types[m]), Err: err != nil}
+
+		if err == nil {
+			row.State = st.Name()
+		}
+
+		t.Targets = append(t.Targets, row)
+	}
+
+	for _, n := range names {
+		for _, ns := range []string{myNSPrefix, theirNSPrefix} {
+			if canTriggerActionEvents(n, ns) {
+				t.Actions = append(t.Actions, VerifAction{State: n, Namespace: ns})
+			}
+		}
+	}
+
+	return t
+}
